@@ -722,6 +722,40 @@ fn round_blocking(rt: &tokio::runtime::Runtime, seed: u64, hb: &Heartbeat, tot: 
             }
         }
     }
+    // 4d. ... and from async code inside a LocalSet driven by a multi-thread runtime (run_until future and spawn_local task):
+    // an async context in which tokio forbids block_in_place although the runtime flavour is multi-thread
+    for (label, local_task) in [("a LocalSet::block_on future", false), ("a spawn_local task", true)] {
+        for kind in [BKind::TellTo(3), BKind::AskTo(3), BKind::ErasedAsk(Some(3))] {
+            let (a2, sh2) = (a.clone(), sh.clone());
+            let (tx, rx) = std::sync::mpsc::channel();
+            let h = rt.handle().clone();
+            std::thread::spawn(move || {
+                let r = std::panic::catch_unwind(std::panic::AssertUnwindSafe(|| {
+                    let _g = h.enter();
+                    let ls = tokio::task::LocalSet::new();
+                    h.block_on(ls.run_until(async move {
+                        if local_task {
+                            tokio::task::spawn_local(async move { send_blocking(&sh2, Ctx::Client(14), 0, &a2, kind, Body::plain(uid())) }).await.map_err(|_| ())
+                        } else {
+                            Ok(send_blocking(&sh2, Ctx::Client(14), 0, &a2, kind, Body::plain(uid())))
+                        }
+                    }))
+                }));
+                let _ = tx.send(r);
+            });
+            *o.entry("C17.inside_runtime").or_default() += 1;
+            match rx.recv_timeout(Duration::from_secs(10)) {
+                Ok(Ok(Ok((Res::Timeout, _)))) => {}
+                Ok(Ok(Ok((res, _)))) => v.push(("C17.inside_runtime".into(), format!("{kind:?} from {label} (multi-thread runtime) against a full mailbox returned {res:?}"))),
+                Ok(_) => v.push(("C17.inside_runtime".into(), format!("{kind:?} called from {label} (multi-thread runtime) panicked: {:?}", PANICS.lock().unwrap().last()))),
+                Err(_) => {
+                    if hb.max_late_since(bucket0) < STALL_US {
+                        v.push(("C17.deadline".into(), format!("[local-set] {kind:?} called from {label} did not return within 10 s of its 3 ms timeout")));
+                    }
+                }
+            }
+        }
+    }
     // 4c. the type-erased forwarders must behave like the direct calls from inside a runtime as well
     for (label, ctk) in [("runtime worker", false), ("current-thread runtime", true)] {
         for kind in [BKind::ErasedTell(Some(3)), BKind::ErasedAsk(Some(3))] {
@@ -1214,7 +1248,8 @@ fn round_notime(seed: u64, tot: &Mutex<Tot>, prop: &str) {
                 let (rf, jh) = spawn_sa(&sh, i, &spec);
                 sh.model_add(i, 1, "spawner");
                 if i == 1 {
-                    sh.peers.lock().unwrap()[1] = Some(H::D(rf.clone()));
+                    // direct and type-erased handles alike: nothing in messaging may need a timer
+                    sh.peers.lock().unwrap()[1] = Some(if r.chance(50) { H::D(rf.clone()) } else { H::E(Box::new(ES::from_ref(rf.clone(), &sh))) });
                     sh.model_add(1, 1, "peers");
                 }
                 ws.push(tokio::spawn(watch(sh.clone(), i, jh)));
@@ -1223,7 +1258,7 @@ fn round_notime(seed: u64, tot: &Mutex<Tot>, prop: &str) {
             let mut cl = vec![];
             for c in 0..3usize {
                 let target = r.below(2) as usize;
-                let h = H::D(refs[target].clone());
+                let h = if r.chance(50) { H::D(refs[target].clone()) } else { H::E(Box::new(ES::from_ref(refs[target].clone(), &sh))) };
                 sh.model_add(target, 1, "slot-init");
                 let sh2 = sh.clone();
                 let mut cr = Rng::new(r.next());
@@ -1934,6 +1969,23 @@ fn round_abort(seed: u64, hb: &Heartbeat, tot: &Mutex<Tot>, prop: &str) {
         if !alive.is_empty() {
             viol.push(("C11.alive_false".into(), format!("[abort] {ended_by} and its JoinHandle resolved with {how} (situation {situation}), yet is_alive() is still true on {:?}", alive)));
         }
+        #[cfg(feature = "f_metrics")]
+        {
+            // metrics stay readable with their final values: every handler that was entered is counted, also the one that was
+            // suspended at an await when the task was cancelled
+            obl.push("C20.count");
+            for (via, h) in [("the strong handle", Some(a.clone())), ("a weak-upgraded handle", weak.upgrade())] {
+                if let Some(h) = h {
+                    let m = h.metrics();
+                    if m.message_count != h0 {
+                        viol.push(("C20.count".into(), format!("[abort] {ended_by} (situation {situation}); {h0} handler(s) had been entered, message_count read through {via} afterwards is {}", m.message_count)));
+                    }
+                    if m.message_count != h.message_count() || m.max_processing_time != h.max_processing_time() {
+                        viol.push(("C20.snapshot_agrees".into(), format!("[abort] snapshot {:?} disagrees with the accessors after the actor ended", m)));
+                    }
+                }
+            }
+        }
         obl.push("C11.send_after_end");
         let mut okd = vec![];
         match tokio::time::timeout(Duration::from_secs(10), a.tell(Work(100, 0))).await {
@@ -2005,7 +2057,7 @@ fn round_abort(seed: u64, hb: &Heartbeat, tot: &Mutex<Tot>, prop: &str) {
     for o in obl {
         *t.obl.entry(o).or_default() += 1;
     }
-    for p in ["C11", "C03", "C01"] {
+    for p in ["C11", "C03", "C01", "C20"] {
         *t.nontrivial.entry(p.into()).or_default() += 1;
     }
     for (c, m) in viol {
